@@ -50,12 +50,19 @@ META = {
         "failure of any stage in front of print_pqr raises and leaves the output path unchanged; no failure "
         "=> Complete; failure inside print_pqr => Partial and after it => Complete are stated explicitly. "
         "The obligation (only print_pqr writes the output path, nothing is written before it, every "
-        "Compute/Rename/Render stage and the charge guard precede it, no swallowing handler) is proved by "
+        "Compute/Rename/Render stage and the charge guard precede it, no swallowing handler; the guard is the LAST Compute "
+        "stage, i.e. it comes after apply_force_field and after the --ligand block that overwrites charges) is proved by "
         "vm_compute for the table generated from the current main.py. TIED by fault enumeration: every "
         "executed stage x exception class x {no file, pre-existing file} on the real main_driver, natural "
-        "triggers, and an open()-monitor. The SUCCESS half (well-formed structures always succeed) is NOT a "
-        "theorem: it is exploration over builder structures x force fields (labelled `_explored` in the "
-        "evidence); `guard_never_fires` of the design is not proved here."
+        "triggers (incl. BaseException subclasses, failing --pdb-output/--apbs-input writers, closed stdout/stderr), "
+        "and an open()-monitor. SUCCESS half, proved part: C12_guard_never_fires_<FF> (C02's theorem restated per force "
+        "field) - a structure of complete standard residues in parameterised table states cannot be rejected by the "
+        "integrality guard - and C12_table_consistent_run_completes_<FF>: on the generated stage table, if the structure "
+        "is table-consistent, the guard stage faults iff the modelled guard raises and no other stage faults, the run ends "
+        "(Finished, Complete). That no OTHER stage (parsing, repair, debump, hydrogen optimisation, pKa, parameter lookup) "
+        "raises on a well-formed structure is NOT a theorem: it is exploration over builder structures x force fields "
+        "(evidence keys `success_runs_explored`, `forcefield_defines_class_explored`). Tree state: C12-F1/F2/F4/F5 fixed "
+        "in /repo (9484706, 8895359, 7917ee7, 79b0276); one success-side defect stays known: C12-F3 (one-nucleotide chain)."
     ),
     "level_note": (
         "Trusted: Coq kernel+vm_compute; the ast translator gen/stages.py (cross-checked by the executed-line "
@@ -73,6 +80,22 @@ THEOREMS = [
     "C12_generated_guard_before_writer",
     "C12_generated_no_partial_output",
     "C12_nonvacuous",
+    "C12_guard_never_fires_AMBER",
+    "C12_table_consistent_run_completes_AMBER",
+    "C12_guard_never_fires_CHARMM",
+    "C12_table_consistent_run_completes_CHARMM",
+    "C12_guard_never_fires_PARSE",
+    "C12_table_consistent_run_completes_PARSE",
+    "C12_guard_never_fires_PEOEPB",
+    "C12_table_consistent_run_completes_PEOEPB",
+    "C12_guard_never_fires_SWANSON",
+    "C12_table_consistent_run_completes_SWANSON",
+    "C12_guard_never_fires_TYL06",
+    "C12_table_consistent_run_completes_TYL06",
+    "C12_guard_stage_in_table",
+    "C12_success_nonvacuous",
+    "C12_guard_is_last_compute_spec",
+    "C12_guard_order_nonvacuous",
 ]
 
 HEADER = (
@@ -82,6 +105,9 @@ HEADER = (
 )
 
 EXC_CLASSES = ["ValueError", "KeyError", "RuntimeError", "IndexError", "TypeError"]
+# BaseException subclasses that are not Exception: no `except Exception`/`except ValueError` may catch them,
+# and the output path must still be untouched in front of the writer
+BASE_EXC_CLASSES = ["KeyboardInterrupt", "SystemExit", "GeneratorExit"]  # (OSError is used for the in-writer check)
 FFS = ["AMBER", "CHARMM", "PARSE", "PEOEPB", "SWANSON", "TYL06"]
 OLD_CONTENT = "REMARK  pre-existing file at the output path - must survive a failing run\nOLD 0123456789\n"
 OLD_MTIME = 1_500_000_000  # fixed past mtime so that any rewrite is visible
@@ -109,6 +135,11 @@ def regenerate(ctx):
         return None
     core.write_if_changed(core.GEN / "Stages.v", text)
     info["_text"] = text
+    # the success-half theorems (C12_guard_never_fires_<FF>) rest on C02's state / force-field tables
+    p = subprocess.run([sys.executable, str(core.VERIF / "gen" / "all.py"), "--only", "ff_tables,topology,states"], capture_output=True, text=True,
+                       env={**os.environ, "VERIF_REPO": str(core.REPO)})
+    if p.returncode != 0:
+        ctx.broke("generator-broken", "gen/all.py (state and force-field tables behind C12_guard_never_fires_<FF>)", (p.stdout + p.stderr)[-2000:])
     return info
 
 
@@ -269,7 +300,7 @@ class Tracer:
 
     def _exc(self):
         cls = getattr(builtins, self.fault["exc"])
-        return cls(f"injected fault at stage {self.fault['idx']} ({self.fault['mode']})")
+        return cls(f"injected fault at stage {self.fault['idx']} ({self.fault['mode']})")  # SystemExit(str) = exit status 1
 
     def _in_stage(self):
         s, c = self.stage, self.cur
@@ -526,7 +557,7 @@ class Runner:
                         pmain.main_driver(ns)
                     obs["finished"] = True
                 except BaseException as e:  # noqa: BLE001
-                    if isinstance(e, KeyboardInterrupt):
+                    if isinstance(e, KeyboardInterrupt) and "injected fault" not in str(e):
                         raise
                     exc_obj = e
         finally:
@@ -588,6 +619,44 @@ def mol2_ethanol(names, resname="LIG"):
     return "\n".join(L) + "\n"
 
 
+def mol2_text(types, bonds, names, resname="LIG"):
+    xyz = ligand_xyz()
+    L = ["@<TRIPOS>MOLECULE", resname, f"{len(types):5d} {len(bonds):5d}     1     0     0", "SMALL", "NO_CHARGES", "", "", "@<TRIPOS>ATOM"]
+    for i, (t, nm) in enumerate(zip(types, names)):
+        x, y, z = xyz[i]
+        L.append(f"{i + 1:7d} {nm:<8s} {x:10.4f} {y:10.4f} {z:10.4f} {t:<7s} {400:3d} {resname:<4s}     0.0000 ")
+    L.append("@<TRIPOS>BOND")
+    for k, (a, b, w) in enumerate(bonds):
+        L.append(f"{k + 1:6d} {a + 1:4d} {b + 1:4d} {w:<4s} ")
+    L.append("@<TRIPOS>SUBSTRUCTURE")
+    L.append(f"     1 {resname:<4s}        1 TEMP              0 ****  ****    0 ROOT")
+    return "\n".join(L) + "\n"
+
+
+ACETATE_NAMES = ["OA1", "CA1", "OA2", "CA2", "HA1", "HA2", "HA3"]
+ACETATE_BONDS = [(0, 1, "2"), (1, 2, "2"), (1, 3, "1"), (3, 4, "1"), (3, 5, "1"), (3, 6, "1")]
+
+
+def charge_column_defect(text):
+    """Model-independent: the written PQR must have an integral total charge.  The guard accepts a
+    total of per-residue 4-decimal roundings within 1e-3 of an integer; the charge column holds
+    per-atom 4-decimal roundings, so |column sum - integer| <= 1e-3 + 5e-5 * (atoms + residues)
+    whenever the guard passed.  Returns None or (sum, deviation, bound)."""
+    from harness import builder as B
+
+    try:
+        rows = B.parse_pqr(text or "")
+    except ValueError:
+        return None  # fused columns (C08 territory): no charge column to add up
+    if not rows:
+        return None
+    tot = sum(r["charge"] for r in rows)
+    nres = len({(r["resname"], r["resseq"], r["chain"]) for r in rows})
+    bound = 1e-3 + 5e-5 * (len(rows) + nres) + 1e-9
+    dev = abs(tot - round(tot))
+    return (round(tot, 4), round(dev, 4), round(bound, 5)) if dev > bound else None
+
+
 def ligand_xyz(origin=(30.0, 30.0, 30.0)):
     rel = [(0.0, 0.0, 0.0), (1.52, 0.0, 0.0), (2.0, 1.34, 0.0), (-0.36, -1.03, 0.0), (-0.36, 0.51, 0.89), (-0.36, 0.51, -0.89),
            (1.88, -0.51, 0.89), (1.88, -0.51, -0.89), (2.96, 1.30, 0.0)]
@@ -622,6 +691,10 @@ def structures():
     s["pepH"] = B.to_pdb(B.build_peptide(["ALA", "LYS", "SER", "GLY"], hydrogens=True))
     s["peplig"] = with_ligand(B.to_pdb(pep + w), LIG_SAFE)
     s["pepligclash"] = with_ligand(B.to_pdb(pep + w), LIG_CLASH)
+    s["pep-lig-renamed-O"] = with_ligand(B.to_pdb(pep), [n if n != "OX1" else "OZ9" for n in LIG_SAFE])
+    s["pep-lig-extra-H"] = with_ligand(B.to_pdb(pep), LIG_SAFE).replace("END\n", "HETATM  950 HX9  LIG L 400      33.500  31.000  30.500  1.00  0.00           H  \nEND\n")
+    s["pep-lig-no-HX6"] = "\n".join(l for l in with_ligand(B.to_pdb(pep), LIG_SAFE).splitlines() if " HX6 " not in l) + "\n"
+    s["pep-acetate"] = with_ligand(B.to_pdb(pep), ACETATE_NAMES)
     s["cif"] = B.to_cif(pep + w)
     s["waters"] = B.to_pdb(B.waters(3, around=pep))
     s["dna"] = B.to_pdb(B.build_strand(["A", "C", "G", "T"]))
@@ -753,7 +826,9 @@ def judge(ctx, smap, case, obs, expect_fail=None, tag=""):
             bad.append(({"side": "failure", "site": site, "condition": "quiet-exit", "trigger": trig}, "run ended by SystemExit(0)"))
         st = obs["state"]
         unchanged = st in ("absent", "old")
-        if rel == "before-writer" and not unchanged:
+        if not fault and case.get("allow_complete") and st == "complete":
+            pass  # trigger aimed at a writer that runs AFTER print_pqr (--pdb-output / --apbs-input): the complete PQR stays
+        elif rel == "before-writer" and not unchanged:
             bad.append(({"side": "failure", "site": site, "condition": f"output-{'modified' if case.get('pre') else 'created'}-by-failing-run", "left": st, "trigger": trig},
                         f"failure at {site} ({obs['exc']}) but the output path is now {st} ({obs['state_why']})"))
         elif rel == "writer":
@@ -783,7 +858,13 @@ def judge(ctx, smap, case, obs, expect_fail=None, tag=""):
         elif not atom_lines(obs["text"] or ""):
             bad.append(({"side": "failure", "site": "main.non_trivial", "condition": "atomless-pqr-written", "trigger": trig},
                         "run returned normally and wrote a PQR without a single atom record"))
-        if expect_fail and not any(b[0]["condition"] == "atomless-pqr-written" for b in bad):
+        elif "--clean" not in case.get("argv", []):
+            cd = charge_column_defect(obs["text"])
+            if cd:
+                bad.append(({"side": "failure", "site": "main.non_trivial", "condition": "pqr-written-with-nonintegral-total-charge", "trigger": trig},
+                            f"run returned normally and {'overwrote' if case.get('pre') else 'created'} the output PQR although its total charge is not integral: "
+                            f"charge column sums to {cd[0]} (off by {cd[1]}, rounding bound {cd[2]})"))
+        if expect_fail and not any(b[0]["condition"] in ("atomless-pqr-written", "pqr-written-with-nonintegral-total-charge") for b in bad):
             bad.append(({"side": "failure", "site": "main_driver", "condition": "no-error", "trigger": trig},
                         f"{trig}: the run cannot produce a valid result but returned normally (output {obs['state']})"))
     return bad
@@ -872,12 +953,21 @@ def natural_cases(structs):
     add("ligand-file-garbage", {"in.pdb": P["peplig"], "lig.mol2": "@<TRIPOS>ATOM\n1 C1 x y z C.3\n"}, ["--ff=AMBER", "--ligand={wd}/lig.mol2", *io_], "fail")
     add("ligand-file-empty", {"in.pdb": P["peplig"], "lig.mol2": ""}, ["--ff=AMBER", "--ligand={wd}/lig.mol2", *io_], "either")
     add("ligand-names-clash-with-water(F4)", {"in.pdb": P["pepligclash"], "lig.mol2": mol2_ethanol(LIG_CLASH)}, ["--ff=AMBER", "--ligand={wd}/lig.mol2", *io_], "either")
+    lg = ["--ff=AMBER", "--ligand={wd}/lig.mol2", *io_]
+    # the --ligand path: the guard must see the charges the ligand block assigns
+    add("ligand-pdb-atom-not-in-mol2", {"in.pdb": P["pep-lig-renamed-O"], "lig.mol2": mol2_ethanol(LIG_SAFE)}, lg, "fail")
+    add("ligand-mol2-atom-not-in-pdb", {"in.pdb": P["pep-lig-no-HX6"], "lig.mol2": mol2_ethanol(LIG_SAFE)}, lg, "fail")
+    add("ligand-mol2-nonintegral-formal-total", {"in.pdb": P["pep-acetate"], "lig.mol2": mol2_text(["O.co2", "C.2", "O.2", "C.3", "H", "H", "H"], ACETATE_BONDS, ACETATE_NAMES)}, lg, "fail")
+    add("ligand-pdb-extra-atom", {"in.pdb": P["pep-lig-extra-H"], "lig.mol2": mol2_ethanol(LIG_SAFE)}, lg, "either")
+    add("ligand-charged-acetate", {"in.pdb": P["pep-acetate"], "lig.mol2": mol2_text(["O.co2", "C.2", "O.co2", "C.3", "H", "H", "H"], ACETATE_BONDS, ACETATE_NAMES)}, lg, "either")
     add("waters-only", {"in.pdb": P["waters"]}, ["--ff=AMBER", *io_], "fail")
     add("forcefield-defines-no-residue", {"in.pdb": P["dna"]}, ["--ff=SWANSON", *io_], "fail")
     add("output-dir-missing", {"in.pdb": P["pep"]}, ["--ff=AMBER", "{wd}/in.pdb", "{wd}/nodir/out.pqr"], "fail", out="nodir/out.pqr")
     add("output-is-directory", {"in.pdb": P["pep"]}, ["--ff=AMBER", "{wd}/in.pdb", "{wd}"], "fail", out=".")
     add("pdb-output-dir-missing", {"in.pdb": P["pep"]}, ["--ff=AMBER", "--pdb-output={wd}/nodir/x.pdb", *io_], "fail", allow_complete=True)
     add("apbs-input-dir-missing", {"in.pdb": P["pep"]}, ["--ff=AMBER", "--apbs-input={wd}/nodir/x.in", *io_], "fail", allow_complete=True)
+    add("pdb-output-is-directory", {"in.pdb": P["pep"]}, ["--ff=AMBER", "--pdb-output={wd}", *io_], "fail", allow_complete=True)
+    add("apbs-input-is-directory", {"in.pdb": P["pep"]}, ["--ff=AMBER", "--apbs-input={wd}", *io_], "fail", allow_complete=True)
     add("drop-water-leaves-nothing", {"in.pdb": P["waters"]}, ["--ff=AMBER", "--drop-water", *io_], "fail")
     return C
 
@@ -1061,6 +1151,9 @@ def run_success(ctx, runner, smap, st, ff, cov):
             nres_in = st["n_res"]
             if "--drop-water" in st["opts"]:
                 nres_in = len({(l[17:20], l[21], l[22:27]) for l in st["pdb"].splitlines() if l.startswith(("ATOM", "HETATM")) and l[17:20] != "HOH"})
+            cd = charge_column_defect(obs["text"])
+            if cd:
+                bad.append(({**base, "condition": "pqr-written-with-nonintegral-total-charge"}, f"{st['tag']} --ff={ff}: charge column sums to {cd[0]} (off by {cd[1]}, bound {cd[2]})"))
             if not rows or nres_out < nres_in:
                 culprits = [c for c in diagnose_success_failure(obs) if c.endswith(":*")] or ["none"]
                 for c in culprits:
@@ -1097,8 +1190,15 @@ def cli_run(runner, case):
         o.write_text(OLD_CONTENT)
         os.utime(o, (OLD_MTIME, OLD_MTIME))
     before = snapshot(o)
-    p = subprocess.run(["timeout", "120", sys.executable, "-m", "pdb2pqr", *case["opts"], "--log-level=CRITICAL", str(wd / "in.pdb"), str(o)],
-                       capture_output=True, text=True, env=env, cwd=wd, errors="replace")
+    cmd = ["timeout", "120", sys.executable, "-m", "pdb2pqr", *case["opts"], str(wd / "in.pdb"), str(o)]
+    if case.get("closed_streams"):
+        # stdout and stderr CLOSED (not redirected): every console write of the logger fails
+        cmd = ["sh", "-c", 'exec "$@" >&- 2>&-', "sh", *cmd]
+    else:
+        cmd.insert(-2, "--log-level=CRITICAL")
+    p = subprocess.run(cmd, capture_output=not case.get("closed_streams"), text=True, env=env, cwd=wd, errors="replace")
+    if case.get("closed_streams"):
+        p.stderr = ""
     after = snapshot(o)
     txt = o.read_text(errors="replace") if after and "sha" in after else None
     state, why = classify(before, after, txt, None, False)
@@ -1114,8 +1214,11 @@ def cli_cases(ctx, structs, runner):
         ("cli-empty-input", "", ["--ff=PARSE"], False, "fail", {}),
         ("cli-nonascii-chain-utf8", nonascii_chain(structs["pep"]), ["--ff=AMBER", "--keep-chain"], True, "either", {"PYTHONUTF8": "1"}),
         ("cli-ascii-locale-nonascii-chain", nonascii_chain(structs["pep"]), ["--ff=AMBER", "--keep-chain"], True, "ok", ASCII_ENV),
+        ("cli-closed-streams-success", structs["pepw"], ["--ff=AMBER"], True, "ok", {"closed": "1"}),
+        ("cli-closed-streams-nonintegral", structs["missing-CZ"], ["--ff=AMBER", "--assign-only"], True, "fail", {"closed": "1"}),
     ):
-        case = {"kind": "cli", "tag": tag, "files": {"in.pdb": text}, "opts": opts, "pre": pre, "expect": expect, "env": env}
+        case = {"kind": "cli", "tag": tag, "files": {"in.pdb": text}, "opts": opts, "pre": pre, "expect": expect, "env": {k_: v_ for k_, v_ in env.items() if k_ != "closed"},
+                "closed_streams": "closed" in env}
         rc, state, why, err = cli_run(runner, case)
         out.append({"tag": tag, "rc": rc, "state": state, "why": why, "expect": expect, "stderr_tail": err, "case": case})
     return out
@@ -1139,6 +1242,42 @@ def judge_cli(ctx, r, report_=True):
     if sig and report_:
         ctx.fail(sig[0], sig[1], r["case"])
     return sig
+
+
+def writer_truncation_check(ctx, runner, smap, structs, preds):
+    """The in-writer case on the real code, with a pre-existing file and the fault AFTER several
+    lines were written: the model says Partial.  Confirm what the code really does - truncate in
+    place (old bytes gone, a strict prefix of the full output, no temp file) or better (untouched)."""
+    if smap.writer is None:
+        return
+    cfg = CONFIGS[0]
+    full = runner.run(config_case(structs, cfg, pre=True))
+    res = {}
+    for after in (12, 30):
+        case = config_case(structs, cfg, pre=True, fault={"idx": smap.writer, "mode": "inside", "exc": "OSError", "after": after})
+        obs = runner.run(case)
+        ctx.evaluated((smap.writer, "print_pqr", "OSError", f"inside@{after}", True), obs["fired"] is not None)
+        if obs["fired"] is None or full["exc"]:
+            continue
+        text, ftext = obs["text"] or "", full["text"] or ""
+        extra = sorted(set(os.listdir(obs["wd"])) - set(os.listdir(full["wd"])))
+        kind = ("untouched" if obs["state"] == "old" else
+                "truncated-in-place" if (obs["state"] == "partial" and OLD_CONTENT.splitlines()[1] not in text and ftext.startswith(text) and len(text) < len(ftext)) else "other")
+        res[f"after_{after}_line_events"] = {"state": obs["state"], "bytes_left": len(text), "atom_lines_left": len(atom_lines(text)), "full_bytes": len(ftext),
+                                              "prefix_of_full_output": ftext.startswith(text), "old_bytes_gone": OLD_CONTENT.splitlines()[1] not in text,
+                                              "extra_files": extra, "same_inode": bool(obs["before"] and obs["after"] and obs["before"]["ino"] == obs["after"].get("ino")), "verdict": kind}
+        ctx.count(f"writer-inside-with-old-file:{kind}")
+        if preds is not None:
+            exp = preds[(smap.writer, "Inside", True)]
+            ctx.cov["correspondence_cases"] += 1
+            if not (show(obs) == exp or (exp == "raised;partial" and kind == "untouched")):
+                ctx.cov["correspondence_disagreements"] += 1
+                ctx.broke("correspondence-broken", "Model.Pipeline.frun (Inside fault in the writer, pre-existing file) vs main.print_pqr",
+                          f"model {exp}, observed {show(obs)} ({kind})", {k2: v for k2, v in case.items()})
+        if kind == "other" or extra:
+            report(ctx, [({"side": "failure", "site": "main_driver:print_pqr", "condition": "in-writer-failure-left-unexpected-state", "left": obs["state"], "extra_files": bool(extra)},
+                          f"a failure inside print_pqr left {obs['state']} (prefix of full output: {ftext.startswith(text)}, stray files {extra})")], case, obs)
+    ctx.cov["writer_truncation_confirmed"] = res
 
 
 # --------------------------------------------------------------------------
@@ -1230,7 +1369,7 @@ def run(ctx):
             modes = ["line"]
             if s.get("callee"):
                 modes.append("call")
-                if heavy or k == smap.writer or (k + ctx.seed) % 7 == 0:
+                if ctx.thorough or s["kind"] == "Output" or (k + ctx.seed) % (3 if heavy else 7) == 0:
                     modes.append("inside")
             for mi, mode in enumerate(modes):
                 if ctx.thorough:
@@ -1241,6 +1380,11 @@ def run(ctx):
                     excs = EXC_CLASSES if (k + ctx.seed) % 3 == 0 else [EXC_CLASSES[(k + ctx.seed) % 5], "ValueError"]
                 else:
                     excs = [EXC_CLASSES[(k + mi + ctx.seed) % 5]]
+                if mode == "line":
+                    if ctx.thorough:
+                        excs = list(excs) + BASE_EXC_CLASSES
+                    elif ci == 0 or heavy:
+                        excs = list(excs) + [BASE_EXC_CLASSES[(k + ctx.seed) % 3]]
                 for en in dict.fromkeys(excs):
                     for pre in (False, True):
                         fault = {"idx": k, "mode": mode, "exc": en, "after": 6}
@@ -1280,6 +1424,8 @@ def run(ctx):
                         if k >= 20 and not any("fault_case" in x for x in ctx.cov["samples"] if isinstance(x, dict)):
                             ctx.sample({"fault_case": {"config": cfg[0], "stage": k, "name": s["name"], "mode": mode, "exc": en, "pre": pre},
                                         "model": preds[(k, fk, pre)] if preds else None, "observed": show(obs), "escaped": obs["exc"]})
+    if smap.n:
+        writer_truncation_check(ctx, runner, smap, structs, preds)
     ctx.cov["stages_total"] = smap.n
     ctx.cov["stages_fault_injected"] = len(covered)
     ctx.cov["stages_never_executed"] = [f"{s['idx']}:{s['name']}" for s in smap.stages if s["idx"] not in covered]
